@@ -16,6 +16,42 @@ import (
 type Replay struct {
 	Name   string      `json:"name"`
 	Events []rh.CEvent `json:"events"`
+	// concurrent phase (monitor only): answers of three targets in flight through the
+	// transit while the link to one requester is stalled
+	Concurrent bool `json:"concurrent,omitempty"`
+	SingleP    bool `json:"single_p,omitempty"`
+}
+
+func runConcurrent(c *vh.Ctx, rp Replay) {
+	var o rh.CCObs
+	var err error
+	if p := vh.Recover(func() { o, err = rh.RunConcurrentResponses(answer, rp.SingleP) }); p != "" || err != nil {
+		c.Fail("panic", fmt.Sprintf("%s: %s %v", rp.Name, p, err), rp)
+		return
+	}
+	c.Count("concurrent-responses")
+	c.Case(fmt.Sprintf("concurrent/%v", rp.SingleP), true, rp)
+	if o.Notes != "" {
+		c.Fail("harness-note", rp.Name+": "+o.Notes, rp)
+		return
+	}
+	// requester 1: request 1 -> target 3's answer to tag 11, request 2 -> target 4's answer to tag 12;
+	// requester 2: request 2 -> target 5's answer to tag 13; nothing else
+	want := map[[2]uint64]uint64{{1, 1}: answer(3, 11), {1, 2}: answer(4, 12), {2, 2}: answer(5, 13)}
+	got := map[[2]uint64]uint64{}
+	for _, d := range o.Delivered {
+		got[[2]uint64{uint64(d.To), d.ID}] = d.Tag
+	}
+	ok := len(o.Delivered) == 3 && len(got) == 3
+	for k, v := range want {
+		if got[k] != v {
+			ok = false
+		}
+	}
+	if !ok {
+		c.Fail("control-response-corrupted-under-concurrency", fmt.Sprintf("%s: requester 1 asked 3 (id 1) and 4 (id 2), requester 2 asked 5 (id 2); with the link to requester 1 stalled while 3, 4, 5 answered, the transit delivered %+v; every request must get its own target's answer (%v)",
+			rp.Name, o.Delivered, want), rp)
+	}
 }
 
 const me = 9
@@ -70,6 +106,13 @@ func monitor(c *vh.Ctx, rp Replay, obs []rh.CObs) {
 		case "setfail":
 			failing[ev.Peer] = ev.Fail
 		case "req":
+			// whatever the agent answers to the requester itself (local answer, no route,
+			// next hop not connected, failed to forward) travels under the requester's id
+			for _, m := range o.Out {
+				if m.IsResp && m.To == ev.From && m.ID != ev.ID {
+					c.Fail("control-reply-under-wrong-id", fmt.Sprintf("%s: event %d: request id %d of peer %d was answered by the agent under id %d (%+v)", rp.Name, i, ev.ID, ev.From, m.ID, m), rp)
+				}
+			}
 			// forwarded? then it is outstanding at the target the agent sent it to
 			for _, m := range o.Out {
 				if !m.IsResp && m.Tag == ev.Tag {
@@ -295,6 +338,16 @@ func witnesses() []Replay {
 			rh.CEvent{Ev: "originate", Target: 4, Tag: 33},                           // next own request: must not reuse id 2
 			rh.CEvent{Ev: "resp", From: 4, RefTag: 32, Tag: answer(4, 32)},
 			rh.CEvent{Ev: "resp", From: 4, RefTag: 33, Tag: answer(4, 33)}),
+		w("forward-fails-counters-out-of-step",
+			rh.CEvent{Ev: "req", From: 2, ID: 1, Target: 4, Path: []int{4}, Tag: 41}, // transit counter -> 1
+			rh.CEvent{Ev: "req", From: 1, ID: 1, Target: 4, Path: []int{4}, Tag: 42}, // requester 1's id 1 travels as 2
+			rh.CEvent{Ev: "setfail", Peer: 3, Fail: true},                            // half-dead link to 3
+			rh.CEvent{Ev: "req", From: 1, ID: 2, Target: 3, Path: []int{3}, Tag: 43}, // forward fails: reply must carry id 2, not 3
+			rh.CEvent{Ev: "originate", Target: 4, Tag: 44},
+			rh.CEvent{Ev: "req", From: 1, ID: 3, Target: 3, Path: []int{3}, Tag: 45}, // fails again: reply id 3, transit id would be 5
+			rh.CEvent{Ev: "resp", From: 4, RefTag: 42, Tag: answer(4, 42)},
+			rh.CEvent{Ev: "resp", From: 4, RefTag: 41, Tag: answer(4, 41)},
+			rh.CEvent{Ev: "resp", From: 4, RefTag: 44, Tag: answer(4, 44)}),
 		w("no-collision",
 			rh.CEvent{Ev: "req", From: 1, ID: 1, Target: 3, Path: []int{3}, Tag: 55},
 			rh.CEvent{Ev: "req", From: 2, ID: 2, Target: 4, Path: []int{4}, Tag: 66},
@@ -385,7 +438,11 @@ func main() {
 		if err := c.ReadReplay(&rp); err != nil {
 			panic(err)
 		}
-		runScript(rp)
+		if rp.Concurrent {
+			runConcurrent(c, rp)
+		} else {
+			runScript(rp)
+		}
 	} else {
 		for _, w := range witnesses() {
 			runScript(w)
@@ -408,6 +465,11 @@ func main() {
 				continue
 			}
 			record(rp, obs)
+		}
+	}
+	if c.Replay == "" {
+		for i, n := 0, c.N(6, 60); i < n; i++ {
+			runConcurrent(c, Replay{Name: fmt.Sprintf("concurrent-responses-%d", i), Concurrent: true, SingleP: i%3 != 2})
 		}
 	}
 	var sb strings.Builder
